@@ -83,7 +83,8 @@ PROPS["C03"] = dict(
     bounds=SEL_BOUNDS + "; N = 2 (quick), 3 (thorough; classic also 4)",
     stubs=["selection::enhanced::in_flight_cap_exceeded and cc_soft_cap_multiplier -> their exact tables on the 'leaf domain' (rtt_min 1000 ms, CC target "
            "in {0, 8001, 10^12} bit/s, measured rate in {0, target/2, target}); exactness of the tables is decided by c11_leaf_tables_exact, so "
-           "counterexamples replay natively on the real functions; the thorough tier also runs the real leaves on unconstrained inputs"],
+           "counterexamples replay natively on the real functions (the same harness with the real leaves on unconstrained f64 inputs, "
+           "c03_enhanced_n2_real_leaves, is kept in the source but did not finish in 50 min)"],
     assumptions=["clock values <= 2^48 ms", "enhanced harnesses: 50 ms quality cache fresh (exp() path decided separately in C11)"],
     outside="N > 4 links; the stale-quality-cache path (exp) in the enhanced selector is covered by C11's contract-stubbed harness",
     harnesses=[
@@ -93,7 +94,6 @@ PROPS["C03"] = dict(
         H("c03::c03_classic_n3", "core", tier="thorough", desc="same, 3 links", bounds="N=3", timeout=3000),
         H("c03::c03_classic_n4", "core", tier="thorough", desc="same, 4 links", bounds="N=4", timeout=3000),
         H("c03::c03_enhanced_n3", "core", tier="thorough", desc="same, 3 links (abstracted leaves)", bounds="N=3", timeout=3000),
-        H("c03::c03_enhanced_n2_real_leaves", "core", tier="thorough", desc="2 links with the real f64 BDP-cap / soft-cap leaves", bounds="N=2", timeout=3000),
     ],
 )
 
